@@ -82,11 +82,18 @@ def path_strings(maxlen: int, canary: Path, real: dict) -> list[str]:
             s = "/".join(comb)
             out.append(s)
             out.append("/" + s)
-    out += [s + "/" for s in out[:40]] + ["//" + s for s in out[:40]]
-    # absolute paths to existing files outside the root
-    out += [str(canary / "x.fb"), str(canary / "shards_list.json"),
-            str(canary / "sub" / "shards_list.json"), str(canary),
-            str(canary / "new" / "shards_list.json")]
+    out += [s + "/" for s in out[:40]]
+    out += ["/" + s for s in out if s.startswith("/") and
+            not s.startswith("//")]  # POSIX keeps exactly two leading slashes
+    # absolute paths to existing files outside the root (also spelled with
+    # two and three leading slashes)
+    absolute = [str(canary / "x.fb"), str(canary / "shards_list.json"),
+                str(canary / "sub" / "shards_list.json"), str(canary),
+                str(canary / "new" / "shards_list.json")]
+    out += absolute + ["/" + a for a in absolute] + ["//" + a
+                                                     for a in absolute]
+    out += [a.replace("/outside/", "/outside/./") for a in absolute[:2]]
+    out += [a.replace("/outside/", "/root/../outside/") for a in absolute[:2]]
     # paths through the real names that normalise inside the root
     for r in real.values():
         p = Path(r)
@@ -186,8 +193,10 @@ def exercise(root: Path, with_native: bool) -> list[str]:
         try:
             D.with_alarm(60, lambda: D.iterate(ds_, "train", iface))
             done.append(iface)
-        except Exception:  # pylint: disable=broad-except
-            pass
+        except (KeyboardInterrupt, SystemExit):
+            raise
+        except BaseException:  # pylint: disable=broad-except
+            pass  # incl. the PanicException of the Rust reader
     try:
         with ds_.filler() as f:
             f.write_example(values=D.example((9, 0, 0)), split="train")
